@@ -141,7 +141,7 @@ pub fn markdown_doc(prose: &str, rng: &mut Rng) -> String {
 /// Lexically interesting atoms (things a condensing or lexing pass treats specially) strung together, so that
 /// every pass meets every other pass's output; about half of the soups hold a matched pair of quotes
 /// somewhere, whose twin indices must survive whatever the passes remove before or between them.
-pub const ATOMS: [&str; 64] = ["@octocat", "@a", "@rust-lang", "\"quick\"", "“yes”", "'single'", "‘curly’", "e.g.", "i.e.", "et al.", "N.S.A.",
+pub const ATOMS: [&str; 70] = ["İstanbul", "ǅungla", "ŉ", "ẞ", "ﬁnal", "İ", "@octocat", "@a", "@rust-lang", "\"quick\"", "“yes”", "'single'", "‘curly’", "e.g.", "i.e.", "et al.", "N.S.A.",
     "1st", "2nd", "22nd", "don't", "o'clock", "...", "well-known", "$5", "5%", "#tag", "a@b.com", "http://x.y/z", "x86", "3.14", "1,000",
     "0x1F", "(paren)", "[bracket]", "—", "-", "--", "/", "C++", "it's", "’s", "1980s", "U.S.", "Mr.", "a.m.", "…", "!?", "§", "\u{a0}",
     "\t", "  ", "the", "teh", "a", "I", "word", "Ünïcödé", "世界", "😀", ",", ";", ":", ".", "!", "?", "\n", "\n\n", "&", "10:30"];
@@ -185,7 +185,7 @@ pub fn token_soup(rng: &mut Rng) -> String {
     let mut out = String::new();
     let quote_at = if rng.chance(1, 2) { Some(rng.below(n)) } else { None };
     for i in 0..n {
-        if i > 0 && !rng.chance(1, 6) { out.push(' '); }
+        if i > 0 && !rng.chance(1, 3) { out.push(' '); }
         if Some(i) == quote_at {
             let (o, c) = *rng.pick(&[("\"", "\""), ("“", "”"), ("\"", "”")]);
             out.push_str(o); out.push_str(*rng.pick(&ATOMS[..])); out.push_str(c);
@@ -224,6 +224,19 @@ pub fn long_tail_markdown(corpus: &[String], rng: &mut Rng) -> String {
     };
     match rng.below(3) { 0 => doc.push('\n'), 1 => doc.push_str("\n\n"), _ => {} }
     doc
+}
+
+/// Every ordered pair of condensing-relevant atoms glued together without a blank, inside a plain sentence: what one
+/// pass makes of the first atom is what the next pass sees in front of the second.
+pub fn glued_pairs() -> Vec<String> {
+    let p = ["etc.", "etc", "vs.", "et al.", "e.g.", "i.e.", "...", "..", ".", "…", "'s", "'", "’", "-", "--", "—", "1st", "2", "3.5", "N.S.A.", "a.m.",
+        "%", "$5", "@a", "#tag", "\"", "”", "“", ",", "!", "?", ":", ";", "(", ")", "/", "&", "x86", "don't", "well-known", "\n", " "];
+    let mut v = Vec::new();
+    for a in p { for b in p {
+        v.push(format!("pears {a}{b} and more"));
+        if a != b { v.push(format!("{a}{b}")); }
+    } }
+    v
 }
 
 pub fn adversarial() -> Vec<String> {
